@@ -1,0 +1,24 @@
+//go:build verif
+
+package operator
+
+import (
+	"reduction.dev/reduction/dkv"
+	"reduction.dev/reduction/dkv/storage"
+	"reduction.dev/reduction/util/size"
+)
+
+// VerifUseFileSystem replaces the DKV of a freshly deployed, still idle operator by an empty one on the given
+// file system, exactly as HandleDeploy builds it. The barrier-alignment harness passes a wrapper around the
+// deployment's own file system that can make db.Checkpoint fail on demand (build tag verif only).
+func (o *Operator) VerifUseFileSystem(fs storage.FileSystem) {
+	o.mu.Lock()
+	defer o.mu.Unlock()
+	o.db = dkv.Open(dkv.DBOptions{
+		FileSystem:    fs,
+		Logger:        o.Logger,
+		DataOwnership: newOperatorPartition(o.keyGroupRange, nil),
+	}, nil)
+	o.stateStore = NewKeyedStateStore(o.db, o.keySpace)
+	o.timerRegistry = NewTimerRegistry(NewTimerStore(o.db, o.keySpace, o.keyGroupRange, size.GB), o.sourceRunners.all)
+}
